@@ -2,7 +2,7 @@
 from verif import *
 from props.routers import *
 
-THEOREMS = []
+THEOREMS = ['c01_exactly_once_in_order', 'c01_history_is_trace', 'c01_quiescent_flushed']
 
 
 def run(tier, seed, replay=None):
